@@ -185,6 +185,9 @@ func c20Run(r *core.Run) {
 	}
 	level := []int{6, 1, 9}[t.Int(3, "c20.level")]
 	enc := world.Present(xml, compress, level)
+	if t.Int(6, "c20.ambient") == 1 {
+		s.NeighbourNoise(enc)
+	}
 
 	// router: pre-decode first
 	type pre struct {
